@@ -259,7 +259,17 @@ def case_dim2(w):
 DIMEXPS = [[0, 1], [1, 1], [2, 1], [3, 1], [-1, 1], [-2, 1], [1, 2], [-1, 2], [3, 2]]
 
 
+KNOWN_ATTRS = set('''__abs__ __add__ __array_function__ __array_ufunc__ __bool__ __dict__ __doc__ __eq__ __format__ __from_ags__ __ge__
+    __getitem__ __getnewargs__ __gt__ __hash__ __init__ __into_ags__ __iter__ __le__ __len__ __lt__ __matmul__ __mod__ __module__ __mul__ __ne__
+    __neg__ __nutils_dispatch__ __pos__ __pow__ __radd__ __repr__ __rmatmul__ __rmod__ __rmul__ __rpow__ __rsub__ __rtruediv__ __setitem__ __str__
+    __sub__ __truediv__ __weakref__ unwrap __firstlineno__ __static_attributes__ __annotations__ __qualname__'''.split())
+
+
 def run_dimalg(res, tier):
+    from nutils import SI
+    unknown = sorted(k for k in vars(SI.Quantity) if k not in KNOWN_ATTRS and not k.startswith('_Quantity__'))
+    if unknown:
+        res.errors.append('Quantity defines {} which the C20 catalogue does not model: add call templates for them (NOT checked)'.format(unknown))
     vecs = list(M.all_vectors())
     for d in vecs:
         w = {'part': 'dim1', 'd': M.enc(d), 'exps': DIMEXPS}
